@@ -7,7 +7,41 @@ NA = {}
 DIST_NOTE = ("Bounds: curated hostile configurations (quick) and every single sub-distributor over <=2 ordered sources, any primary, <=2 shares, burn (thorough); "
              "deposits of 3/10 units on one account per block, <=3 blocks, shares in quarters (decimal-exact at P=64, so model and 18-digit code agree exactly). "
              "TLC, the Json module and the harness projection (States/Params queries, bank balances) are trusted.")
+VEST_NOTE = ("Bounds: 6 addresses (two funded owners, two fresh recipients, one genesis vesting account, one blocked module account), genesis and non-genesis pools, "
+             "3 vesting types (free 0, 1/20, 1/2), ~80 message attempts per state with amounts chosen relative to the state (zero, one, half, all, all-1, over, negative), "
+             "<= 2 (quick) / 3 (thorough) messages interleaved with time steps 0..4/6; amounts <= 40 so the P=100 model arithmetic equals the 18-digit code. "
+             "Messages are delivered like baseapp.runTx without ante handler. TLC, the Json module and the harness projection are trusted.")
 TEXT = {
+    "C05": {
+        "technique": "TLA+ spec Vesting.tla: TLC checks C05_Backed / C05_Bounds / Rejected on every reachable state and transition; every model transition replayed on the real message router with module balance, every pool counter and the module's registered invariants compared after each message",
+        "level": "Model checking of all message interleavings within bounds plus conformance of the real handlers on every enumerated transition (accept/reject, pool counters, module balance, balances); rejected messages are checked to leave the complete real projection unchanged.",
+        "note": VEST_NOTE,
+    },
+    "C06": {
+        "technique": "TLA+ spec Vesting.tla: action properties C06_Lock / C06_WithdrawnOnlyAfter / C06_WithdrawExact checked by TLC; real withdraw response, owner balance delta and the VestingPools query's withdrawable field compared with the model at every time step before, at and after each lock end",
+        "level": "Model checking over every block time relative to every lock end (integer ticks make this exhaustive) with conformance of the real withdraw / query on every transition.",
+        "note": VEST_NOTE,
+    },
+    "C07": {
+        "technique": "TLA+ spec Vesting.tla (SplitOV = the unlock algorithm incl. the -1 compensation): TLC checks C07_Exact / C07_Drift / C07_Liveness; every split, move and move-by-denominations transition replayed on the real handlers comparing locked, spendable, original vesting, start/end of both accounts, with delegated vesting through the real staking keeper and two denominations",
+        "level": "Model checking of the split arithmetic and schedule preservation within bounds plus conformance of the real handlers on every enumerated transition, including chains of repeated splits and delegated vesting. Real-magnitude arithmetic (10^18 and above) is outside the TLC domain and covered by the numeric stage when present.",
+        "note": VEST_NOTE,
+    },
+    "C08": {
+        "technique": "TLA+ spec Vesting.tla: C08_Send / C08_Create action properties checked by TLC; every send-to-vesting-account and create-vesting-account transition replayed on the real handlers comparing recipient balance, original vesting, start/end, the pool's sent counter and accept/reject at the exact-remainder boundary",
+        "level": "Model checking over vesting types x pool states x amounts x restart flag x block time relative to lock end x recipient state, with conformance of the real handlers on every enumerated transition.",
+        "note": VEST_NOTE,
+    },
+    "C09": {
+        "technique": "TLA+ spec Vesting.tla: C09_NoOverwrite action property checked by TLC; around every real message the harness snapshots every pre-existing auth account (type, number, sequence, public key, vesting fields) and requires it unchanged except the signer's own original vesting on an accepted split/move",
+        "level": "Model checking over target address states (absent, base, vesting, module) x every account-creating message, with the no-overwrite predicate evaluated directly on the real account store around every enumerated message.",
+        "note": VEST_NOTE + " The signature module's CreateAccount is covered by the signature stage.",
+    },
+    "C17": {
+        "technique": "TLA+ spec Vesting.tla: lineage traces and both summary queries are part of the model state; C17_Lineage checked by TLC; real traces, VestingsSummary and GenesisVestingsSummary compared with the model after every transition including delegation through the real staking keeper",
+        "level": "Model checking of lineage propagation through sends, splits and moves (chains within the message bound) with conformance of the real trace store and summary queries at every block time explored.",
+        "note": VEST_NOTE,
+    },
     "C03": {
         "technique": "TLA+ spec Distributor.tla: TLC checks BooksMatch/NonNegative/Conservation on every reachable state of the reference flow; every model transition (deposit, BeginBlocker, export/import) replayed on the real cfedistributor keeper with the C03 predicate and the module's own invariants evaluated on the real state",
         "level": "Model checking of the documented flow over configuration families x deposit patterns x blocks, plus conformance of the real BeginBlocker to every enumerated transition (balances of every account, every leftover, parameters). The C03 identity is additionally evaluated directly on the real States query after every block, so the verdict never rests on the model alone.",
